@@ -147,6 +147,9 @@ func (e *Expression) UnmarshalYAML(unmarshal func(interface{}) error) error {
 
 func (e Expression) ToProto() (*pb.NodeProto, error) {
 	p, err := e.AnyExpression.ToProto()
+	if err != nil {
+		return nil, err
+	}
 	p.Name = e.Name
 	p.Begin = int32(e.Begin)
 	p.End = int32(e.End)
@@ -315,6 +318,8 @@ func FromLiteral(l interface{}) (Literal, error) {
 		return Literal{AnyLiteral: RouteExpression(l)}, nil
 	case UntypedCollection:
 		return Literal{AnyLiteral: CollectionExpression{UntypedCollection: l}}, nil
+	case Query:
+		return Literal{AnyLiteral: QueryExpression{Query: l}}, nil
 	}
 	return Literal{}, fmt.Errorf("can't make literal from %T", l)
 }
